@@ -302,7 +302,7 @@ impl Check for C17 {
     }
     fn gen(&self, seed: u64, i: u64, _tier: Tier) -> Value {
         let r = Rng::new(crate::harness::case_seed(seed, "C17", i));
-        let setups: Vec<Setup> = Setup::all_basic();
+        let setups: Vec<Setup> = Setup::all_extended();
         let setup = setups[(i % setups.len() as u64) as usize].clone();
         let kind_ix = (i / setups.len() as u64) % 5;
         let kind = match kind_ix {
